@@ -647,9 +647,12 @@ func genLease(rng *rand.Rand, seed int64) *Scenario {
 		// a life of stops and restarts
 		for at < 20*h && rng.Intn(3) > 0 {
 			at += time.Duration(rng.Int63n(int64(8*h)))/2*2 + 2
-			switch rng.Intn(3) {
+			switch rng.Intn(4) {
 			case 0:
 				sc.Steps = append(sc.Steps, Step{At: at, Kind: "stop", Inst: i})
+			case 1:
+				// the application ends the run by cancelling the context it passed to Start
+				sc.Steps = append(sc.Steps, Step{At: at, Kind: "cancelctx", Inst: i})
 			default:
 				sc.Steps = append(sc.Steps, Step{At: at, Kind: "stopctx", Inst: i, Del: rng.Intn(3) > 0, Wait: rng.Intn(2) == 0,
 					Timeout: []time.Duration{0, 50 * ms, 2 * time.Second}[rng.Intn(3)]})
@@ -702,7 +705,9 @@ func genRestart(rng *rand.Rand, seed int64) *Scenario {
 		d = pre + post + time.Duration(rng.Int63n(int64(4*h)))
 	}
 	first := Step{At: t0 + d, Kind: "stop", Inst: 1}
-	if rng.Intn(2) == 0 {
+	if rng.Intn(5) == 0 {
+		first = Step{At: t0 + d, Kind: "cancelctx", Inst: 1}
+	} else if rng.Intn(2) == 0 {
 		first = Step{At: t0 + d, Kind: "stopctx", Inst: 1, Del: rng.Intn(2) == 0, Wait: rng.Intn(2) == 0,
 			Timeout: []time.Duration{0, h / 32, 2 * time.Second}[rng.Intn(3)]}
 	}
@@ -812,7 +817,11 @@ func genMix(rng *rand.Rand, seed int64) *Scenario {
 		case 11:
 			sc.Steps = append(sc.Steps, Step{At: at, Kind: "partition", Inst: i, N: 1}, Step{At: at + time.Duration(rng.Int63n(int64(4*h)))/2*2 + 2, Kind: "partition", Inst: i, N: 0})
 		case 12:
-			sc.Steps = append(sc.Steps, Step{At: at, Kind: "watchfail", Inst: i, N: 1 + rng.Intn(6)})
+			if rng.Intn(2) == 0 {
+				sc.Steps = append(sc.Steps, Step{At: at, Kind: "cancelctx", Inst: i})
+			} else {
+				sc.Steps = append(sc.Steps, Step{At: at, Kind: "watchfail", Inst: i, N: 1 + rng.Intn(6)})
+			}
 		default:
 			if rng.Intn(4) == 0 {
 				sc.Steps = append(sc.Steps, Step{At: at, Kind: "crash", Inst: i})
